@@ -148,6 +148,15 @@ def cloud(rng, kind, d, n):
         p = np.full((n, d), 0.5) + rng.normal(0, 0.01, (n, d))
         p[:, :2] = np.vstack([broad, spike]) + np.array([0.45, 0.5])
         return np.clip(p, 0.0005, 0.9995)
+    if kind == 'box':         # a box whose extent differs from parameter to parameter: tight, mild, unconstrained
+        width = rng.choice([0.02, 0.3, 0.6, 0.8, 0.9, 1.0], size=d)
+        low = rng.random(d) * (1 - width)
+        return np.clip(low + width * rng.random((n, d)), 0.0, 0.999999)
+    if kind == 'halo':        # a dense core inside a broad sparse halo
+        m = (3 * n) // 4
+        core = blob(0.5, 0.02, m)
+        halo = np.clip(rng.normal(0.5, 0.12, (n - m, d)), 0.0005, 0.9995)
+        return np.vstack([core, halo])
     if kind == 'wrapped':
         p = blob(0.5, 0.06, n)
         p[:, 0] = rng.normal(0.0, 0.04, n) % 1.0
@@ -170,7 +179,7 @@ def build(case):
     elif cls == 'Mixture':
         b = UnitCubeEllipsoidMixture.compute(pts, enlarge_per_dim=enl, rng=brng)
     elif cls == 'Union':
-        b = Union.compute(pts, enlarge_per_dim=enl, unit=case.get('unit', True), n_points_min=d + 4,
+        b = Union.compute(pts, enlarge_per_dim=enl, unit=case.get('unit', True), n_points_min=case.get('npm', d + 4),
                           bound_class=Ellipsoid if case['member'] == 'E' else UnitCubeEllipsoidMixture, rng=brng)
         for _ in range(case.get('splits', 0)):
             b.split()
@@ -286,6 +295,17 @@ def cases(tier, seed):
             add(cls='Union', d=d, member=member, cloud='two', splits=2, n=160, unit=False)
             for cl in ('two', 'curved', 'ridge_peak'):
                 add(cls='Union', d=d, member=member, cloud=cl, splits=3, n=200, unit=True, trim_after_sample=True)
+    # mixed-extent boxes (which dimensions a mixture keeps as cube dimensions), several draws per dimension
+    for d in (3, 4, 6, 8):
+        for j in range(10):
+            add(cls='Mixture', d=d, cloud='box', n=200, enl=[1.1, 1.3][j % 2])
+        for j in range(3):
+            add(cls='Union', d=d, member='M', cloud='box', splits=2, n=200, unit=True, npm=d + 20)
+    # large minimum cluster size (the sampler's default is n_dim + 50): the too-small mixture component gets topped up
+    for d in (2, 3):
+        for cl in ('halo', 'blob', 'two'):
+            add(cls='Union', d=d, member='E', cloud=cl, splits=3, n=400, unit=True, npm=d + 50)
+            add(cls='Union', d=d, member='M', cloud=cl, splits=4, n=400, unit=True, npm=d + 50)
     for nets in (0, 1, 2):
         add(cls='Neural', d=2 + nets, nets=nets, cloud='blob')
         for periodic, cl in ((None, 'two'), ([0], 'wrapped'), (None, 'ridge_peak'), ([0, 1], 'wrapped'), (None, 'face')):
